@@ -120,7 +120,15 @@ fn constellation<S: SigT>(rep: &mut Report, name: &str, msm4: u16, table: &'stat
     }
     rep.outcome_n(&format!("{}-standard-entries", name), table.len() as u64);
     // 5. ordering: R by position, R < U, total order on R u U
-    let r: Vec<((u8, char), u8)> = fwd.iter().map(|(d, p)| (*d, *p)).collect();
+    let mut r: Vec<((u8, char), u8)> = fwd.iter().map(|(d, p)| (*d, *p)).collect();
+    if r.len() > 120 {
+        // far more recognised descriptors than any table has (already reported above as not-inverse /
+        // not-injective): keep the ordering part finite -- the standard's entries plus an even sample
+        rep.notes.push(format!("{}: {} recognised descriptors; ordering checked on the standard's entries and a sample of 100", name, r.len()));
+        let step = r.len() / 100 + 1;
+        let sample: Vec<((u8, char), u8)> = r.iter().enumerate().filter(|(i, e)| i % step == 0 || table.iter().any(|t| t.1 == e.0 .0 && t.2 == e.0 .1)).map(|(_, e)| *e).collect();
+        r = sample;
+    }
     let mut u: Vec<(u8, char)> = vec![];
     for b in [0u8, 1, 2, 5, 9, 255] {
         for a in ['\0', '0', '@', 'E', 'J', 'Y', 'a', '~', '\u{ff}', '\u{10ffff}'] {
